@@ -15,6 +15,41 @@ EXEMPT = {"swcgeom.transforms.base.Identity": "documents `return input as-is`; n
                                                "property's operations"}
 
 
+def _propagate(ctx, col):
+    """R-PROPAGATE: a table of removal marks is closed downwards before it is renumbered (CFG must-pass): in the public pruning functions every path from the entry to the
+    renumbering call (to_sub_topology / to_subtree_impl) passes through propagate_removal -- a marked inner node whose descendants are not marked leaves dangling parents."""
+    from .. import cfg as cfgmod
+    from ..rules.sortedness import _stmt_of
+    repo = ctx.repo
+    col.rule("R-PROPAGATE", "removal marks are propagated to the descendants before the table is renumbered: in to_subtree / to_sub_tree (the functions that receive marks from the caller) every "
+             "path from the entry to to_sub_topology / to_subtree_impl passes through propagate_removal (CFG must-pass); otherwise marking an inner node raises KeyError instead of pruning", floor=1)
+    for name in ("to_subtree", "to_sub_tree"):
+        try:
+            d = repo.get_def(f"{TU}.{name}")
+        except Exception:  # noqa: BLE001
+            continue
+        calls = [c for c in own_nodes(d) if isinstance(c, ast.Call) and (dotted(c.func) or "").rsplit(".", 1)[-1] in ("to_sub_topology", "to_subtree_impl")]
+        if not calls:
+            col.unresolved("R-PROPAGATE", d.qualname, d.loc(), "marks are closed downwards before renumbering", "no renumbering call found", stmt=f"propagate:{name}")
+            continue
+        g = cfgmod.build(d)
+
+        def passes(n):
+            return n.ast is not None and any(isinstance(c, ast.Call) and (dotted(c.func) or "").rsplit(".", 1)[-1] == "propagate_removal" for c in ast.walk(n.ast)
+                                             if not isinstance(n.ast, (ast.If, ast.For, ast.While, ast.With, ast.Try)) or any(x is c for x in ast.walk(getattr(n.ast, "test", None) or getattr(n.ast, "iter", None) or ast.Pass())))
+        for c in calls:
+            st = _stmt_of(d, c)
+            node = g.node_of(st) if st is not None else None
+            if node is None:
+                col.unresolved("R-PROPAGATE", d.qualname, d.loc(c), "marks are closed downwards before renumbering", "call not on the CFG", stmt=f"propagate:{name}")
+                continue
+            same_stmt = any(isinstance(x, ast.Call) and (dotted(x.func) or "").rsplit(".", 1)[-1] == "propagate_removal" for x in ast.walk(st))
+            ok_ = same_stmt or g.must_pass(g.entry, [node], passes)
+            col.check(ok_, "R-PROPAGATE", d.qualname, d.loc(c), "marks are closed downwards before renumbering", norm_src(st)[:70],
+                      f"`{norm_src(c)[:70]}` is reached on a path that never calls propagate_removal: when the caller marks an inner node, its unmarked descendants keep a parent that is "
+                      f"removed -- the renumbering raises KeyError (or returns a forest) instead of the pruned tree", stmt=f"propagate:{name}", definite=True)
+
+
 def _rowtext(ctx, col):
     from .. import relang
     from .c01 import reader_patterns, r_capture
@@ -139,6 +174,7 @@ def run(ctx, col, tier):
     col.rule("R-ROWTEXT", "reading a file yields the nodes its rows describe and nothing else: a line starting with '#' never matches the row regex (NFA of the folded pattern), "
              "and the row regex matches nothing but white space outside its capture groups -- otherwise commented-out or junk text becomes an extra node whose id is not its position", floor=2)
     col.guard(_rowtext, ctx, col)
+    col.guard(_propagate, ctx, col)
     from ..rules import endpoints as _endpoints
     _endpoints.run(ctx, col, ('swcgeom.core.tree', 'swcgeom.core.path', 'swcgeom.core.branch', 'swcgeom.core.node', 'swcgeom.core.tree_utils', 'swcgeom.core.tree_utils_impl', 'swcgeom.core.swc_utils.base', 'swcgeom.core.swc_utils.subtree', 'swcgeom.core.swc_utils.normalizer', 'swcgeom.core.swc_utils.io'))
     from ..rules import stateless as _stateless_memo
